@@ -1154,22 +1154,32 @@ pub fn op_counter_name(op: Op) -> &'static str {
 
 const C13_ALPHA: [L; 5] = [L::Arrive(0), L::Arrive(1), L::CloseOldest(0), L::CloseOldest(1), L::Poll];
 
-fn c13_decode(mut idx: u64, maxlen: u32) -> Option<(u32, Vec<L>)> {
-    // index space: for n in {1,2}, for len in 1..=maxlen, all 5^len sequences; each followed by a final Poll
-    for n in [1u32, 2] {
-        for len in 1..=maxlen {
-            let count = 5u64.pow(len);
-            if idx < count {
-                let mut ops = vec![];
-                let mut c = idx;
-                for _ in 0..len {
-                    ops.push(C13_ALPHA[(c % 5) as usize]);
-                    c /= 5;
+const C13_ALPHA7: [L; 7] = [L::Arrive(0), L::Arrive(1), L::CloseOldest(0), L::CloseOldest(1), L::Poll, L::Takeover(0), L::Takeover(1)];
+
+fn c13_space(maxlen: u32, maxlen7: u32) -> u64 {
+    2 * (1..=maxlen).map(|l| 5u64.pow(l)).sum::<u64>() + 2 * (1..=maxlen7).map(|l| 7u64.pow(l)).sum::<u64>()
+}
+
+fn c13_decode(mut idx: u64, maxlen: u32, maxlen7: u32) -> Option<(u32, Vec<L>)> {
+    // index space: for n in {1,2}, for len in 1..=maxlen, all 5^len sequences; then the same over the
+    // 7-letter alphabet (with take-overs) up to maxlen7; each followed by a final Poll
+    for (alpha, ml) in [(&C13_ALPHA[..], maxlen), (&C13_ALPHA7[..], maxlen7)] {
+        let b = alpha.len() as u64;
+        for n in [1u32, 2] {
+            for len in 1..=ml {
+                let count = b.pow(len);
+                if idx < count {
+                    let mut ops = vec![];
+                    let mut c = idx;
+                    for _ in 0..len {
+                        ops.push(alpha[(c % b) as usize]);
+                        c /= b;
+                    }
+                    ops.push(L::Poll);
+                    return Some((n, ops));
                 }
-                ops.push(L::Poll);
-                return Some((n, ops));
+                idx -= count;
             }
-            idx -= count;
         }
     }
     None
@@ -1177,11 +1187,12 @@ fn c13_decode(mut idx: u64, maxlen: u32) -> Option<(u32, Vec<L>)> {
 
 fn c13(ctx: &RunCtx) -> i32 {
     let maxlen: u32 = if ctx.thorough() { 10 } else { 7 };
-    let exhaustive: u64 = 2 * (1..=maxlen).map(|l| 5u64.pow(l)).sum::<u64>();
+    let maxlen7: u32 = if ctx.thorough() { 8 } else { 6 };
+    let exhaustive: u64 = c13_space(maxlen, maxlen7);
     let random = ctx.n(60_000, 3_000_000);
     let seed = ctx.seed;
     let agg = run_parallel(ctx.prop, exhaustive + random, &ctx.known, |i| {
-        if let Some((n, ops)) = c13_decode(i, maxlen) {
+        if let Some((n, ops)) = c13_decode(i, maxlen, maxlen7) {
             let desc = json!({"family": "S-listener", "kind": "exhaustive", "n": n, "ops": format!("{:?}", ops), "index": i});
             misc::c13_case(n, &ops, desc)
         } else {
@@ -1192,10 +1203,11 @@ fn c13(ctx: &RunCtx) -> i32 {
             let ops: Vec<L> = (0..len)
                 .map(|_| {
                     let k = r.below(keys as usize) as u64;
-                    match r.below(10) {
+                    match r.below(11) {
                         0..=3 => L::Arrive(k),
                         4 | 5 => L::CloseOldest(k),
                         6 => L::CloseNewest(k),
+                        7 => L::Takeover(k),
                         _ => L::Poll,
                     }
                 })
@@ -1207,14 +1219,14 @@ fn c13(ctx: &RunCtx) -> i32 {
     });
     let mut extra = BTreeMap::new();
     extra.insert("exhaustive_sequences".into(), json!(exhaustive));
-    extra.insert("exhaustive_bound".into(), json!(format!("all sequences of length 1..={maxlen} over {{arrive(k), close-oldest(k), poll}} x 2 keys, n in {{1,2}}, each followed by a poll")));
+    extra.insert("exhaustive_bound".into(), json!(format!("all sequences of length 1..={maxlen} over {{arrive(k), close-oldest(k), poll}} x 2 keys, and of length 1..={maxlen7} over the same plus take-over(k) (an arrival whose hand-over inside the listener's poll closes the oldest live channel of its key), n in {{1,2}}, each followed by a poll")));
     let rep = Report {
         level: "exploration",
         rule: "S-listener: the real Incoming::max_channels_per_key over a scripted listener of real BaseChannels; the harness owns every yielded channel, so 'alive' is exact. Bounded-exhaustive enumeration of operation sequences plus seeded random longer sequences over 1-3 keys, n in 1..3. Non-trivial = at least one admit/shed decision was observed; distinct = distinct decision sequences (hash of arrivals, closes, polls, yields, sheds)".into(),
         agg,
         extra,
         assumptions: vec!["decisions are attributed in the order in which the scripted listener handed arrivals to the limiter inside one poll".into()],
-        required_cells: vec!["C13.close-and-same-key-arrival-pending-at-one-poll".into(), "C13.shed".into(), "C13.admit".into()],
+        required_cells: vec!["C13.close-and-same-key-arrival-pending-at-one-poll".into(), "C13.close-inside-the-listeners-poll".into(), "C13.shed".into(), "C13.admit".into()],
         exhaustive: Some(true),
     };
     finish(ctx, rep)
@@ -1228,7 +1240,16 @@ fn c19(ctx: &RunCtx) -> i32 {
     let exhaustive: u64 = 22u64.pow(depth) * 2;
     let random = ctx.n(60_000, 10_000_000);
     let seed = ctx.seed;
-    let agg = run_parallel(ctx.prop, exhaustive + random, &ctx.known, |i| {
+    let kinds = codec::all_kinds();
+    let wire = (kinds.len() * 2 * 4) as u64;
+    let agg = run_parallel(ctx.prop, wire + exhaustive + random, &ctx.known, |i| {
+        if i < wire {
+            // a hook's error as the real client receives it over a serializing transport
+            let k = kinds[(i as usize) % kinds.len()];
+            let rest = (i as usize) / kinds.len();
+            return misc::c19_wire_case(k, rest % 2 == 0, (rest / 2) as u8);
+        }
+        let i = i - wire;
         let mut next_id = 0u32;
         if i < exhaustive {
             let tree = misc::decode_tree(i, depth as usize, &mut next_id);
@@ -1245,11 +1266,11 @@ fn c19(ctx: &RunCtx) -> i32 {
     extra.insert("exhaustive_bound".into(), json!(format!("all hook trees of nesting depth <= {depth} over {{before(ok|fail), after(keep|ok|err), before_and_after(ok|fail x keep|ok|err), before().then..(length 0..3, each failing position).serving}} x leaf ok/err")));
     let rep = Report {
         level: "exploration",
-        rule: "S-hooks: hook trees composed at run time from the real RequestHook combinators (each level is the real tarpc wrapper, type-erased by boxing its serve future) with recording hooks; a reference interpreter written from the property's sentences predicts the event sequence (hook ids, contexts seen by before-hooks, handler and the after part of before_and_after, results seen by after-hooks) and the final Result. Distinct = distinct tree shapes".into(),
+        rule: "S-hooks: hook trees composed at run time from the real RequestHook combinators (each level is the real tarpc wrapper, type-erased by boxing its serve future) with recording hooks; a reference interpreter written from the property's sentences predicts the event sequence (hook ids, the whole context - trace id, span id, sampling decision, deadline - seen by before-hooks, handler and the after part of before_and_after, results incl. error kinds seen by after-hooks) and the final Result; each before-hook changes one context field chosen by its id, and hooks are written as structs or as closures (tarpc's blanket impls) depending on their id. In addition every io::ErrorKind produced by a hook in four placements is served by a real BaseChannel over the JSON and bincode serde transports to a real client, which must receive exactly that error. Distinct = distinct tree shapes".into(),
         agg,
         extra,
         assumptions: vec!["the context seen by a plain after-hook is not compared (the property does not constrain it)".into()],
-        required_cells: vec!["C19.failing-before-hook".into(), "C19.both-before-fails".into(), "C19.after-rewrites".into(), "C19.chain".into(), "C19.chain-length-0".into()],
+        required_cells: vec!["C19.failing-before-hook".into(), "C19.both-before-fails".into(), "C19.after-rewrites".into(), "C19.chain".into(), "C19.chain-length-0".into(), "C19.over-the-wire.placement0".into(), "C19.over-the-wire.placement3".into()],
         exhaustive: Some(true),
     };
     finish(ctx, rep)
